@@ -164,6 +164,31 @@ func init() {
 				fs = append(fs, Failure{Kind: "oracle", Key: "seal-roundtrip-stream", Desc: "streaming open of a genuine message: " + clip(o.String(), 200)})
 				break
 			}
+			if i == 0 {
+				// the armored entry points agree (all-at-once and streaming with io.ReadAll's growing buffers)
+				if pe := guard(func() error {
+					txt, e := saltpack.Armor62Seal(out, saltpack.MessageTypeEncryption, "")
+					if e != nil {
+						return e
+					}
+					_, pt2, _, e := saltpack.Dearmor62DecryptOpen(saltpack.CheckKnownMajorVersion, txt, ring)
+					if e != nil || !bytes.Equal(pt2, msg) {
+						return fmt.Errorf("Dearmor62DecryptOpen: %d bytes, err %v", len(pt2), e)
+					}
+					_, rd, _, e := saltpack.NewDearmor62DecryptStream(saltpack.CheckKnownMajorVersion, strings.NewReader(txt), ring)
+					if e != nil {
+						return e
+					}
+					pt3, e := io.ReadAll(rd)
+					if e != nil || !bytes.Equal(pt3, msg) {
+						return fmt.Errorf("NewDearmor62DecryptStream: %d bytes, err %v", len(pt3), e)
+					}
+					return nil
+				}); pe != nil {
+					fs = append(fs, Failure{Kind: "oracle", Key: "seal-roundtrip-armored", Desc: fmt.Sprintf("armored form of a genuine %d-byte message does not open: %.200s", len(msg), pe.Error())})
+					break
+				}
+			}
 		}
 		stranger := &hRing{allSenders: true}
 		stranger.keys = append(stranger.keys, boxSecretFromBytes(bytes.Repeat([]byte{7}, 32)))
